@@ -478,7 +478,7 @@ def run(ctx):
                 "(perturbation name, expected verdict)")
     rng = ctx.rng
     tie = ms.CheckedTie(ctx, "msg", "msg", flush_at=60)
-    n = ctx.scale(30, 400)
+    n = ctx.scale(60, 400)
     for no in range(n):
         gen = irgen.Gen(gtirb, rng, rng.choice([0.4, 0.7, 1.0]))
         ir0 = gen.build()
